@@ -87,6 +87,16 @@ def expected_shapely_coords(kind, c):
     raise AssertionError(kind)
 
 
+_USER_SUBCLASSES = {}
+
+
+def _user_subclass(data, kind):
+    if kind not in _USER_SUBCLASSES:
+        base = getattr(data, kind)
+        _USER_SUBCLASSES[kind] = type("Labelled" + kind, (base,), {"__module__": __name__, "note": property(lambda self: "user data")})
+    return _USER_SUBCLASSES[kind]
+
+
 def check(spec, ctx):
     import shapely
     from soundevent import data, geometry, terms
@@ -116,6 +126,21 @@ def check(spec, ctx):
     ctx.case(spec, nontrivial=nontrivial, labels=labels, out={"bounds": list(got)})
     if tuple(float(x) for x in got) != eb or len(got) != 4:
         ctx.fail(f"compute_bounds({kind}) = {tuple(got)}, coordinates give (min t, min f, max t, max f) = {eb}", spec, got, eb, kind="bounds")
+
+    # --- the same geometry as an instance of a user's subclass (a box with an extra property), and after a pickle round trip: it is
+    # still that geometry, measured by the same coordinates
+    import pickle
+
+    variants = {"unpickled": pickle.loads(pickle.dumps(g))}
+    sub_cls = _user_subclass(data, kind)
+    variants["user subclass instance"] = sub_cls(coordinates=g.coordinates)
+    for how, gv in variants.items():
+        gb = geometry.compute_bounds(gv)
+        if tuple(float(x) for x in gb) != eb:
+            ctx.fail(f"compute_bounds of the {how} of a {kind} = {tuple(gb)}, coordinates give {eb}", spec, gb, eb, kind="bounds_variant")
+        sv = geometry.geometry_to_shapely(gv)
+        if sv.geom_type != SHAPELY_KIND[kind]:
+            ctx.fail(f"geometry_to_shapely of the {how} of a {kind} gives a {sv.geom_type}", spec, sv.geom_type, SHAPELY_KIND[kind], kind="shapely_variant")
 
     # --- shapely conversion
     shp = geometry.geometry_to_shapely(g)
